@@ -213,3 +213,262 @@ Proof.
       - apply IHl. intros x Hx; apply Hsub; right; auto. }
     apply Hgo; auto.
 Qed.
+
+(* ======================================================================================================
+   FSM (appended): state encodings, the Switch over the state register, ongoing() *)
+From V.Model Require Import Derived.
+From V.Proofs Require Import DerivedP.
+
+Lemma assoc_get_In {V} (d : list (nat * V)) k v : assoc_get d k = Some v -> In (k, v) d.
+Proof.
+  induction d as [|[k' v'] d IH]; simpl; [discriminate|]. destruct (Nat.eqb k' k) eqn:E.
+  - apply Nat.eqb_eq in E. intros H. injection H as <-. subst. auto.
+  - auto.
+Qed.
+
+Lemma assoc_get_None {V} (d : list (nat * V)) k : assoc_get d k = None <-> ~ In k (map fst d).
+Proof.
+  induction d as [|[k' v'] d IH]; simpl; [tauto|]. destruct (Nat.eqb k' k) eqn:E.
+  - apply Nat.eqb_eq in E. split; [discriminate|]. intros H. exfalso. auto.
+  - apply Nat.eqb_neq in E. rewrite IH. tauto.
+Qed.
+
+Lemma assoc_get_Some_key {V} (d : list (nat * V)) k : In k (map fst d) -> exists v, assoc_get d k = Some v.
+Proof.
+  intros H. destruct (assoc_get d k) as [v|] eqn:E; [eauto|]. apply assoc_get_None in E. contradiction.
+Qed.
+
+Lemma assoc_set_new {V} (d : list (nat * V)) k v : ~ In k (map fst d) -> assoc_set d k v = d ++ [(k, v)].
+Proof.
+  induction d as [|[k' v'] d IH]; intros H; simpl; [reflexivity|]. simpl in H.
+  destruct (Nat.eqb k' k) eqn:E; [apply Nat.eqb_eq in E; tauto|]. rewrite IH by tauto. reflexivity.
+Qed.
+
+Lemma NoDup_app_snoc {A} (l : list A) a : NoDup l -> ~ In a l -> NoDup (l ++ [a]).
+Proof.
+  induction l as [|y l IH]; intros Hnd Hn; simpl; [constructor; [intros []|constructor]|].
+  apply NoDup_cons_iff in Hnd. destruct Hnd as [Hy Hl]. constructor.
+  - rewrite in_app_iff. simpl. intros [H|[H|[]]]; [auto|]. subst. apply Hn. left. reflexivity.
+  - apply IH; auto. intros H. apply Hn. right. exact H.
+Qed.
+
+(* a well-formed encoding: distinct names, numbered 0, 1, 2, .. in order of first reference *)
+Definition enc_ok (enc : list (nat * Z)) : Prop :=
+  NoDup (map fst enc) /\ map snd enc = map Z.of_nat (seq 0 (length enc)).
+
+Lemma fsm_ref_ok st s fresh : enc_ok (fst st) -> map fst (fst st) = map fst (snd st) ->
+  enc_ok (fst (fsm_ref st s fresh)) /\ map fst (fst (fsm_ref st s fresh)) = map fst (snd (fsm_ref st s fresh)) /\
+  (forall x, In x (map fst (fst (fsm_ref st s fresh))) <-> x = s \/ In x (map fst (fst st))).
+Proof.
+  intros [Hnd Hv] Hk. unfold fsm_ref. destruct (assoc_get (fst st) s) as [k|] eqn:E.
+  - split; [split; auto|split; [auto|]]. intros x. split; [tauto|]. intros [->|H]; [|exact H].
+    apply assoc_get_In in E. apply (in_map fst) in E. exact E.
+  - apply assoc_get_None in E. cbn [fst snd].
+    rewrite !assoc_set_new by (try rewrite <- Hk; exact E).
+    unfold enc_ok. rewrite !map_app. cbn [map fst snd]. split; [split|split].
+    + apply NoDup_app_snoc; auto.
+    + rewrite Hv, app_length. cbn [length]. rewrite Nat.add_1_r, seq_S, map_app. reflexivity.
+    + rewrite Hk. reflexivity.
+    + intros x. rewrite in_app_iff. simpl. intuition congruence.
+Qed.
+
+Theorem fsm_encoding_ok refs :
+  enc_ok (fsm_encoding refs) /\ (forall s, In s (map fst (fsm_encoding refs)) <-> In s refs).
+Proof.
+  unfold fsm_encoding.
+  assert (H : forall refs st, enc_ok (fst st) -> map fst (fst st) = map fst (snd st) ->
+            let st' := fold_left (fun st s => fsm_ref st s O) refs st in
+            enc_ok (fst st') /\ map fst (fst st') = map fst (snd st') /\
+            (forall s, In s (map fst (fst st')) <-> In s refs \/ In s (map fst (fst st)))).
+  { clear refs. induction refs as [|r refs IH]; intros st Hok Hk; simpl.
+    - split; [auto|split; [auto|]]. intros s; tauto.
+    - destruct (fsm_ref_ok st r O Hok Hk) as (Hok' & Hk' & Hin').
+      destruct (IH _ Hok' Hk') as (H1 & H2 & H3). split; [auto|split; [auto|]].
+      intros s. rewrite H3, Hin'. intuition congruence. }
+  destruct (H refs ([], [])) as (H1 & _ & H3).
+  - split; [constructor|reflexivity].
+  - reflexivity.
+  - split; [exact H1|]. intros s. rewrite H3. simpl. tauto.
+Qed.
+
+(* consequences of enc_ok: the codes are 0 .. n-1 and distinct states have distinct codes *)
+Lemma enc_ok_range enc s k : enc_ok enc -> assoc_get enc s = Some k -> 0 <= k < Z.of_nat (length enc).
+Proof.
+  intros [_ Hv] H. apply assoc_get_In in H. apply (in_map snd) in H. simpl in H. rewrite Hv in H.
+  apply in_map_iff in H. destruct H as (i & <- & Hi). apply in_seq in Hi. lia.
+Qed.
+
+Lemma NoDup_snd_inj {A B} (l : list (A * B)) a1 a2 b : NoDup (map snd l) -> In (a1, b) l -> In (a2, b) l -> a1 = a2.
+Proof.
+  induction l as [|[a b'] l IH]; intros Hnd H1 H2; [destruct H1|]. simpl in Hnd. inversion Hnd as [|? ? Hx Hl]; subst.
+  destruct H1 as [H1|H1], H2 as [H2|H2].
+  - congruence.
+  - injection H1 as <- <-. exfalso. apply Hx. apply (in_map snd) in H2. exact H2.
+  - injection H2 as <- <-. exfalso. apply Hx. apply (in_map snd) in H1. exact H1.
+  - auto.
+Qed.
+
+Lemma enc_ok_codes_nodup enc : enc_ok enc -> NoDup (map snd enc).
+Proof.
+  intros [_ Hv]. rewrite Hv. generalize (seq_NoDup (length enc) 0). generalize (seq 0 (length enc)) as l.
+  induction l as [|x l IH]; intros H; simpl; [constructor|]. apply NoDup_cons_iff in H. destruct H as [Hx Hl].
+  constructor; [|auto]. intros Hin. apply in_map_iff in Hin. destruct Hin as (y & Hy & Hin).
+  apply Nat2Z.inj in Hy. subst. contradiction.
+Qed.
+
+Theorem enc_ok_injective enc s1 s2 k : enc_ok enc -> assoc_get enc s1 = Some k -> assoc_get enc s2 = Some k -> s1 = s2.
+Proof.
+  intros Hok H1 H2. apply (NoDup_snd_inj enc s1 s2 k (enc_ok_codes_nodup enc Hok)); apply assoc_get_In; auto.
+Qed.
+
+(* ---------- the state register's shape represents every code ---------- *)
+Lemma zassoc_set_new {V} (d : list (Z * V)) k v : ~ In k (map fst d) -> zassoc_set d k v = d ++ [(k, v)].
+Proof.
+  induction d as [|[k' v'] d IH]; intros H; simpl; [reflexivity|]. simpl in H.
+  destruct (Z.eqb k' k) eqn:E; [apply Z.eqb_eq in E; tauto|]. rewrite IH by tauto. reflexivity.
+Qed.
+
+Lemma fsm_decoding_length enc : forall dec, NoDup (map fst dec ++ map snd enc) ->
+  length (fsm_decoding dec enc) = (length dec + length enc)%nat.
+Proof.
+  unfold fsm_decoding. induction enc as [|[s n] enc IH]; intros dec H; simpl; [lia|].
+  simpl in H. rewrite zassoc_set_new.
+  - rewrite IH; [rewrite app_length; simpl; lia|]. rewrite map_app. simpl. rewrite <- app_assoc. exact H.
+  - apply NoDup_remove_2 in H. intros Hin. apply H. apply in_or_app. left. exact Hin.
+Qed.
+
+Lemma py_range_n_In a m k : In k (py_range_n a 1 m) <-> a <= k < a + Z.of_nat m.
+Proof.
+  revert a. induction m as [|m IH]; intros a; simpl; [lia|]. rewrite IH. lia.
+Qed.
+
+Lemma py_range_0_In n k : In k (py_range 0 (Z.of_nat n) 1) <-> 0 <= k < Z.of_nat n.
+Proof.
+  unfold py_range, range_len. cbn [Z.ltb Z.compare].
+  destruct (0 <? Z.of_nat n) eqn:E.
+  - rewrite py_range_n_In. rewrite Z.sub_0_r, Z.div_1_r. lia.
+  - simpl. lia.
+Qed.
+
+Theorem fsm_state_shape_ok enc : enc_ok enc ->
+  let sh := fsm_state_shape (fsm_decoding [] enc) in
+  wf_shape sh = true /\ sgn sh = false /\ forall s k, assoc_get enc s = Some k -> in_rangeb sh k = true.
+Proof.
+  intros Hok sh. unfold sh, fsm_state_shape.
+  rewrite fsm_decoding_length by (simpl; apply enc_ok_codes_nodup; exact Hok). simpl plus.
+  set (ms := py_range 0 (Z.of_nat (length enc)) 1).
+  assert (Hs : sgn (cast_enum ms) = false).
+  { destruct (sgn (cast_enum ms)) eqn:E; [|reflexivity]. apply cast_enum_signed_iff in E.
+    destruct E as (v & Hin & Hneg). apply py_range_0_In in Hin. lia. }
+  split; [|split; [exact Hs|]].
+  - rewrite cast_enum_is_unify. apply unify_wf. apply Forall_forall. intros s Hin.
+    apply in_map_iff in Hin. destruct Hin as (x & <- & _). apply const_shape_wf.
+  - intros s k Hk. apply in_rangeb_spec. apply cast_enum_represents. apply py_range_0_In.
+    exact (enc_ok_range enc s k Hok Hk).
+Qed.
+
+(* ---------- the Switch over the state register makes active exactly the body of the state whose code the
+   register holds ---------- *)
+Theorem lower_fsm_active curr reg enc states sw :
+  wf_expr reg = true -> env_ok curr reg -> sgn (shape_of reg) = false ->
+  (forall s k, In s (map fst states) -> assoc_get enc s = Some k -> in_rangeb (shape_of reg) k = true) ->
+  lower_fsm reg enc states = Some sw ->
+  active curr sw = active_list curr (fsm_active_body (denote curr reg) enc states).
+Proof.
+  intros Hwf Henv Hsg Hrep Hlow.
+  destruct (shape_sound curr reg Hwf Henv) as [Hws Hr].
+  unfold in_range in Hr. rewrite Hsg in Hr. fold (ewidth reg) in Hr.
+  assert (Hw : 0 <= ewidth reg) by (unfold wf_shape in Hws; rewrite Hsg in Hws; unfold ewidth; lia).
+  unfold lower_fsm in Hlow.
+  destruct (opt_map _ states) as [cs|] eqn:Ecs; [|discriminate]. injection Hlow as <-.
+  simpl active. rewrite Z.mod_small by exact Hr. set (v := denote curr reg) in *.
+  revert cs Ecs. induction states as [|[s body] states IH]; intros cs Ecs.
+  - simpl in Ecs. injection Ecs as <-. reflexivity.
+  - simpl in Ecs. destruct (assoc_get enc s) as [k|] eqn:Ek; [|discriminate].
+    destruct (opt_map _ states) as [cs'|] eqn:Ecs'; [|discriminate]. injection Ecs as <-.
+    assert (Hk : in_rangeb (shape_of reg) k = true) by (apply (Hrep s k); [left; reflexivity|exact Ek]).
+    cbn [fsm_active_body fst snd]. rewrite Ek.
+    unfold int_case_patterns. rewrite Hk. cbn [case_sem existsb fst snd].
+    apply in_rangeb_spec in Hk. unfold in_range in Hk. rewrite Hsg in Hk. fold (ewidth reg) in Hk.
+    destruct (bin_pattern_sem (ewidth reg) k v Hw Hk Hr) as [Hp _]. rewrite Hp, orb_false_r.
+    destruct (v =? k).
+    + apply active_run_flat.
+    + apply IH; [|reflexivity]. intros s' k' Hin. apply Hrep. right. exact Hin.
+Qed.
+
+(* with a well-formed encoding and distinct state names: the register holds the code of state s  =>  the active
+   body is the body of s (and of no other state) *)
+Theorem fsm_active_body_unique enc states s body k :
+  enc_ok enc -> NoDup (map fst states) -> (forall s', In s' (map fst states) -> In s' (map fst enc)) ->
+  In (s, body) states -> assoc_get enc s = Some k ->
+  fsm_active_body k enc states = body.
+Proof.
+  intros Hok Hnd Hdef Hin Hk. induction states as [|[s0 b0] states IH]; [destruct Hin|].
+  simpl in Hnd. inversion Hnd as [|? ? Hx Hl]; subst.
+  cbn [fsm_active_body fst snd].
+  destruct (assoc_get_Some_key enc s0 (Hdef s0 (or_introl eq_refl))) as [k0 Hk0]. rewrite Hk0.
+  destruct (k =? k0) eqn:E.
+  - apply Z.eqb_eq in E. subst k0. pose proof (enc_ok_injective enc s s0 k Hok Hk Hk0) as <-.
+    destruct Hin as [Hin|Hin]; [congruence|]. exfalso. apply Hx. apply (in_map fst) in Hin. exact Hin.
+  - destruct Hin as [Hin|Hin]; [injection Hin as -> ->; rewrite Hk in Hk0; injection Hk0 as <-; lia|].
+    apply IH; auto. intros s' H'. apply Hdef. right. exact H'.
+Qed.
+
+(* a register value that is the code of no defined state selects nothing *)
+Theorem fsm_active_body_none enc states v :
+  (forall s k, In s (map fst states) -> assoc_get enc s = Some k -> k <> v) -> fsm_active_body v enc states = [].
+Proof.
+  intros H. induction states as [|[s0 b0] states IH]; [reflexivity|]. cbn [fsm_active_body fst snd].
+  destruct (assoc_get enc s0) as [k0|] eqn:E.
+  - pose proof (H s0 k0 (or_introl eq_refl) E). replace (v =? k0) with false by lia.
+    apply IH. intros s k Hin. apply H. right. exact Hin.
+  - apply IH. intros s k Hin. apply H. right. exact Hin.
+Qed.
+
+(* ---------- ongoing(s) = (state register == code of s) ---------- *)
+Theorem fsm_ongoing_value curr reg k :
+  denote curr (EOp2 OEq reg (mk_const_auto k)) = if denote curr reg =? k then 1 else 0.
+Proof.
+  simpl. unfold mk_const_auto. rewrite norm_id by (apply const_shape_wf || apply const_shape_fits). reflexivity.
+Qed.
+
+Theorem fsm_ongoing_stmts_spec reg enc og l : fsm_ongoing_stmts reg enc og = Some l ->
+  length l = length og /\
+  forall i s o, nth_error og i = Some (s, o) ->
+    exists k, assoc_get enc s = Some k /\ nth_error l i = Some (SAssign o (EOp2 OEq reg (mk_const_auto k))).
+Proof.
+  unfold fsm_ongoing_stmts. revert l. induction og as [|[s0 o0] og IH]; intros l H; simpl in H.
+  - injection H as <-. split; [reflexivity|]. intros [|i] s o Hn; discriminate.
+  - destruct (assoc_get enc s0) as [k0|] eqn:E; [|discriminate].
+    destruct (opt_map _ og) as [l'|] eqn:El; [|discriminate]. injection H as <-.
+    destruct (IH l' eq_refl) as [Hlen Hnth]. split; [simpl; lia|].
+    intros [|i] s o Hn; simpl in Hn.
+    + injection Hn as <- <-. exists k0. split; [exact E|reflexivity].
+    + simpl. apply Hnth. exact Hn.
+Qed.
+
+(* ---------- the whole "FSM" branch, with the encoding the DSL allocates ---------- *)
+Theorem pop_fsm_active curr reg_id init refs states og reg iv ogs sw s body :
+  let enc := fsm_encoding refs in
+  pop_fsm reg_id init enc [] states og = Some (reg, iv, ogs, [sw]) ->
+  NoDup (map fst states) -> (forall s', In s' (map fst states) -> In s' refs) ->
+  env_ok curr reg ->
+  In (s, body) states -> assoc_get enc s = Some (denote curr reg) ->
+  reg = ESig reg_id (shape_of reg) /\ sgn (shape_of reg) = false /\
+  (forall s' k, assoc_get enc s' = Some k -> in_rangeb (shape_of reg) k = true) /\
+  active curr sw = active_list curr body.
+Proof.
+  intros enc Hpop Hnd Hdef Henv Hin Hcode.
+  destruct (fsm_encoding_ok refs) as [Hok Hkeys]. fold enc in Hok, Hkeys.
+  destruct (fsm_state_shape_ok enc Hok) as (Hwf & Hsg & Hrep).
+  unfold pop_fsm in Hpop. destruct states as [|sb0 states0] eqn:Est; [destruct Hin|]. rewrite <- Est in *.
+  destruct (fsm_init_value init enc states); [|discriminate].
+  set (r := ESig reg_id (fsm_state_shape (fsm_decoding [] enc))) in *.
+  destruct (fsm_ongoing_stmts r enc og); [|discriminate].
+  destruct (lower_fsm r enc states) as [sw'|] eqn:Elow; [|discriminate].
+  injection Hpop as <- _ _ <-.
+  split; [reflexivity|]. split; [exact Hsg|]. split; [exact Hrep|].
+  rewrite (lower_fsm_active curr r enc states sw' Hwf Henv Hsg) by (try exact Elow; intros s' k _ Hk; exact (Hrep s' k Hk)).
+  f_equal. apply (fsm_active_body_unique enc states s body (denote curr r) Hok Hnd); auto.
+  intros s' Hs'. apply Hkeys. apply Hdef. exact Hs'.
+Qed.
